@@ -1,7 +1,7 @@
 //! C09: approximate matchers and distance functions equal the edit-distance definition (oracle: textbook DP)
 use crate::util::*;
 use bio::alignment::distance::{hamming, levenshtein, simd};
-use bio::pattern_matching::myers::{long, Myers};
+use bio::pattern_matching::myers::{long, Myers, MyersBuilder};
 use bio::pattern_matching::ukkonen::{unit_cost, Ukkonen};
 
 /// d[i] = min edit distance between p and a substring of t ending at i (inclusive)
@@ -96,7 +96,56 @@ fn check(p: &[u8], t: &[u8], k: usize) -> Result<(), String> {
         Ok(())
     }).and_then(|r| r)
 }
+
+/// MyersBuilder: ambiguity codes (pattern symbol -> equivalents) and text wildcards; oracle = the DP over the configured match relation
+fn check_builder(p: &[u8], t: &[u8], k: usize, amb: &[(u8, Vec<u8>)], wild: &[u8]) -> Result<(), String> {
+    let (p, t, amb, wild) = (p.to_vec(), t.to_vec(), amb.to_vec(), wild.to_vec());
+    guarded(move || {
+        // the LAST ambig() call for a symbol wins (HashMap::insert)
+        let rel = |c: u8, a: u8| c == a || amb.iter().rev().find(|x| x.0 == c).map_or(false, |x| x.1.contains(&a)) || wild.contains(&a);
+        let m = p.len();
+        let mut col: Vec<usize> = (0..=m).collect();
+        let mut e = vec![];
+        for &c in t.iter() {
+            let mut pd = col[0];
+            col[0] = 0;
+            for j in 1..=m { let tmp = col[j]; col[j] = (pd + (!rel(p[j - 1], c)) as usize).min(col[j] + 1).min(col[j - 1] + 1); pd = tmp; }
+            e.push(col[m]);
+        }
+        let want: Vec<(usize, usize)> = e.iter().cloned().enumerate().filter(|x| x.1 <= k).collect();
+        let mut b = MyersBuilder::new();
+        for (c, eqs) in amb.iter() { b.ambig(*c, eqs.iter()); }
+        for w in wild.iter() { b.text_wildcard(*w); }
+        if m <= 64 && k <= 255 {
+            let my = b.build_64(&p[..]);
+            let got: Vec<(usize, usize)> = my.find_all_end(&t[..], k as u8).map(|(i, d)| (i, d as usize)).collect();
+            if got != want { return Err(format!("builder build_64 find_all_end(k={}) = {:?}, relation DP gives {:?}", k, got, want)); }
+        }
+        if m <= 16 && k <= 255 {
+            let my: Myers<u16> = b.build(&p[..]);
+            let got: Vec<(usize, usize)> = my.find_all_end(&t[..], k as u8).map(|(i, d)| (i, d as usize)).collect();
+            if got != want { return Err(format!("builder build::<u16> find_all_end(k={}) = {:?}, relation DP gives {:?}", k, got, want)); }
+        }
+        let my = b.build_long_64(&p[..]);
+        let got: Vec<(usize, usize)> = my.find_all_end(&t[..], k).collect();
+        if got != want { return Err(format!("builder build_long_64 find_all_end(k={}) = {:?}, relation DP gives {:?}", k, got, want)); }
+        let my: long::Myers<u8> = b.build_long(&p[..]);
+        let got: Vec<(usize, usize)> = my.find_all_end(&t[..], k).collect();
+        if got != want { return Err(format!("builder build_long::<u8> find_all_end(k={}) = {:?}, relation DP gives {:?}", k, got, want)); }
+        Ok(())
+    }).and_then(|r| r)
+}
+/// "amb" field: groups separated by '.', each = symbol byte followed by its equivalents (hex)
+fn parse_amb(s: &str) -> Vec<(u8, Vec<u8>)> {
+    s.split('.').filter(|g| g.len() >= 2).map(|g| { let b = unhex(g); (b[0], b[1..].to_vec()) }).collect()
+}
+fn fmt_amb(a: &[(u8, Vec<u8>)]) -> String {
+    a.iter().map(|(c, e)| { let mut v = vec![*c]; v.extend(e.iter()); hex(&v) }).collect::<Vec<_>>().join(".")
+}
 pub fn run(input: &str) -> Result<(), String> {
+    if let Some(a) = field(input, "amb") {
+        return check_builder(&unhex(field(input, "p").unwrap_or("")), &unhex(field(input, "t").unwrap_or("")), num(input, "k"), &parse_amb(a), &unhex(field(input, "w").unwrap_or("")));
+    }
     check(&unhex(field(input, "p").unwrap_or("")), &unhex(field(input, "t").unwrap_or("")), num(input, "k"))
 }
 pub fn search(seed: u64, budget: &Budget, thorough: bool) -> (u64, Option<(String, String)>) {
@@ -125,6 +174,11 @@ pub fn search(seed: u64, budget: &Budget, thorough: bool) -> (u64, Option<(Strin
         }
         tried += 1;
         if let Err(e) = check(&p, &t, k) { return (tried, Some((format!("k={} p={} t={}", k, hex(&p), hex(&t)), e))); }
+        // the same search through MyersBuilder with a random ambiguity map (a symbol may be configured twice) and wildcards
+        let mut amb: Vec<(u8, Vec<u8>)> = vec![];
+        for _ in 0..rng.below(3) { let c = *rng.pick(alpha); let n = rng.below(3) as usize; amb.push((c, rng.bytes(n, alpha))); }
+        let wild = rng.bytes(rng.below(4) as usize, alpha);
+        if let Err(e) = check_builder(&p, &t, k, &amb, &wild) { return (tried, Some((format!("k={} p={} t={} amb={}. w={}", k, hex(&p), hex(&t), fmt_amb(&amb), hex(&wild)), e))); }
     }
     (tried, None)
 }
